@@ -87,9 +87,10 @@ def check_mask_invariant(res, facts):
             res.absorb(it)
             for o in sem_iter(outs):
                 t = o.ret.fields[0].term if o.status == 'returned' and isinstance(o.ret, StructV) else None
-                exp = n.term if part == 'n<=11' else Poly.const(11)
-                res.ob('R-NEWTYPE', '%s|%s' % (path.split('::')[-2] + '::' + path.split('::')[-1], part), t == exp,
-                       'Note(%r) for n in [%d,%d]; expected %r' % (t, lo, hi, exp), where_of(facts, path), key='R-NEWTYPE:%s:%s' % (path, part))
+                # C07 only needs every Note to be a pitch class 0..11 (WHICH one an out-of-range number becomes is C20's statement)
+                tlo, thi = o.ctx.rng(t) if t is not None else (-INF, INF)
+                res.ob('R-NEWTYPE', '%s|%s' % (path.split('::')[-2] + '::' + path.split('::')[-1], part), t is not None and tlo >= 0 and thi <= 11,
+                       'Note(%r) for n in [%d,%d] lies in [%s,%s]; a Note must be a pitch class 0..11' % (t, lo, hi, tlo, thi), where_of(facts, path), key='R-NEWTYPE:%s:%s' % (path, part))
     newtype_sites(res, facts, NOTE, 0, 11)
     # new(): all twelve notes
     it = qz.interp()
@@ -123,8 +124,7 @@ def check_mask_invariant(res, facts):
                 al = post.get('allowed')
                 lo, hi = o.ctx.rng(al.term)
                 res.ob('R-MASK', inst, lo >= 1 and hi <= 4095, 'allowed after %s in [%s,%s]; must stay a non-empty 12-bit mask' % (meth, lo, hi), where_of(facts, Q + '::' + meth), key='R-MASK:' + inst)
-                ch = set(spec_fields_changed(pre, post, Q_FIELDS))
-                res.ob('R-WRITESET', inst, ch <= {'allowed'}, 'changed %s' % sorted(ch), where_of(facts, Q + '::' + meth), key='R-WRITESET:' + inst)
+                # (what a scale edit does to the cached conversion is C08's / C09's statement: check_scale_edits_keep_cache)
                 if meth == 'forbid' and part == 'len>=1':
                     # on the rescue path the mask is exactly the last note of the argument
                     emptied = any(f.k[0] == 'cmp' and f.k[1] == '==' and 'after_for_each' in repr(f.k[2]) for f in o.ctx.facts)
@@ -356,7 +356,8 @@ def check_convert(res, facts, prop):
       res.ob('R-HYST', 'constants', abs(W - Fr(1, 12)) < Fr(1, 10 ** 7) and abs(H - Fr(1, 120)) < Fr(1, 10 ** 7) and qz.VMAX == qz.MAX_OCT,
            'SEMITONE_WIDTH=%s HYSTERESIS=%s V_MAX=%s (expected 1/12, 1/120, MAX_OCTAVE)' % (float(W), float(H), float(qz.VMAX)))
     n = 0
-    for cached in ('consistent', 'fresh'):
+    # C08 is stated for "a quantizer with no prior conversion": only the freshly constructed pre-state is its business
+    for cached in (('fresh',) if prop == 'C08' else ('consistent', 'fresh')):
         FMAX = Fr(2 ** 128 - 2 ** 104)
         for vname, v_part in (('finite', (-FMAX, FMAX)), ('+inf', '+inf'), ('-inf', '-inf'), ('nan', 'nan')):
             try:
@@ -395,7 +396,7 @@ def check_convert(res, facts, prop):
                         res.ob('R-HYST', inst + '|first conversion is history-free', False,
                                'the hysteresis early return is reachable from the freshly constructed quantizer (sentinel stairstep %r): it would report a conversion that never happened' % (ss0,), where, key='R-HYST:fresh-early')
                         continue
-                    if vname in ('nan', '+inf', '-inf'):
+                    if vname in ('nan', '+inf', '-inf') and prop in ('C09', 'C19'):
                         res.ob('R-HYST', inst + '|NaN / infinite input never inside the window', False, 'early return taken for a %s input' % vname, where, key='R-HYST:nan-early')
                         continue
                     pc = Poly.sym('cached.pc')
